@@ -97,6 +97,55 @@ func (i *Instance) verifControlC13GoodHelper(nodeId string) []byte {
 	return i.Parameter(nodeId).ToMessage()
 }
 `,
+		"generator/parameter/zz_verif_control_c13.go": `package parameter
+
+import "encoding/json"
+
+// must fire FRESH-1: the message is appended onto the buffer of the value it replaces
+type verifControlC13BadReuse struct{ File }
+
+func (pn *verifControlC13BadReuse) ApplyMessage(msg []byte) (bool, error) {
+	pn.version++
+	pn.appliedProfile = append(pn.appliedProfile[:0], msg...)
+	return true, nil
+}
+
+// must fire FRESH-1: decode on top of a copy of the current value
+type verifControlC13BadDecode struct {
+	File
+	cur []float64
+}
+
+func (pn *verifControlC13BadDecode) ApplyMessage(msg []byte) (bool, error) {
+	val := pn.cur
+	if err := json.Unmarshal(msg, &val); err != nil {
+		return false, err
+	}
+	pn.cur = val
+	return true, nil
+}
+
+// must stay silent: fresh copy of the message, decode into a new object, helper that stores it
+type verifControlC13GoodFresh struct {
+	File
+	cur *[]float64
+}
+
+func (pn *verifControlC13GoodFresh) ApplyMessage(msg []byte) (bool, error) {
+	p := new([]float64)
+	if err := json.Unmarshal(msg, p); err != nil {
+		return false, err
+	}
+	pn.verifControlC13Store(p)
+	pn.appliedProfile = append([]byte(nil), msg...)
+	return true, nil
+}
+
+func (pn *verifControlC13GoodFresh) verifControlC13Store(p *[]float64) {
+	pn.version++
+	pn.cur = p
+}
+`,
 	}
 }
 
@@ -204,6 +253,7 @@ func run(c *props.Ctx) {
 	a.regionRules(entries, ctlEntries)
 	a.whoMayCall()
 	a.noCopy()
+	a.fresh1()
 	a.otherMethods(entries)
 
 	c.R.Floor("CONC-1", 5)
